@@ -50,7 +50,10 @@ META = {
     "note": "the solver iterations (Newton Hessian / Cholesky updates, CG directions, PGS sweeps, QCQP) are not modelled: their "
             "results are judged by the certificate. Convexity of the elliptic cone cost is a hypothesis of the certificate "
             "theorems (proved separately in Props/C12 under the impedance relation). PrimalEval is modelled for scalar rows "
-            "only (elliptic cone line evaluation: oracle only). Floating point: the checker runs on doubles; its own residual "
+            "only (elliptic cone line evaluation: oracle only). PGS (dual method) is judged by the cost gap to the best other solve of the "
+            "same rows, not by the primal upper bound. Observation recorded by the oracle: for the same state the dense and the sparse "
+            "Jacobian can build different row sets (rows with an empty Jacobian are kept in dense mode only; same minimiser, cost "
+            "shifted by a constant), so only solves with identical rows are compared. Floating point: the checker runs on doubles; its own residual "
             "|M w - g| is reported and bounded.",
 }
 
@@ -95,11 +98,12 @@ BOUND_REL = {             # observed maxima:
     "Newton/elliptic": 1e-8,  # 4e-11
     "CG": 1e-7,               # 1.5e-10
     "CG/elliptic": 1e-7,      # 4.4e-10
-    "PGS": 1e-4,              # 2.5e-7 (dual solver; exits on its own dual improvement)
+    "PGS": 1e-4,              # (reported only; PGS is judged by the cost gap GAP_PGS, see below)
     "PGS/elliptic": 1e-4,     # not met by the unmodified tree: PGS_ELLIPTIC_KEY
     "Newton@loose": 0.05, "Newton/elliptic@loose": 0.05, "CG@loose": 0.05, "CG/elliptic@loose": 0.05,   # tolerance 1e-6: observed 5e-4
 }
 NOISE_REL = 1e-11         # relative resolution granted to the engine's own cost evaluation (~5e4 ulp of the cost)
+GAP_PGS = 1e-3            # scaled cost gap of a converged PGS solve to the best other solve of the same problem (observed <= 2e-6)
 PGS_ELLIPTIC_KEY = "c10:pgs-elliptic-converges-off-optimum"
 # deterministic witness of PGS_ELLIPTIC_KEY (a generated 2-dof scene: weld, limit, friction loss, one elliptic contact)
 WITNESS = {
@@ -412,7 +416,10 @@ def run(ctx):
             continue
         lines.append(cert_line(d, [d["qacc"], d["qacc_smooth"], d["qacc_warmstart"]]))
         owners.append(("solve", idx))
-        groups.setdefault((info["model"], info["state"]), []).append(idx)
+        # dense and sparse Jacobians can build different row sets for the same state (rows with an empty Jacobian are kept in
+        # dense mode and dropped in sparse mode: same minimiser, cost shifted by a constant), so only solves with identical
+        # rows are compared with each other
+        groups.setdefault((info["model"], info["state"], d["nefc"], tuple(d["type"])), []).append(idx)
     for key, idxs in groups.items():
         d0 = solves[idxs[0]][1]
         same = [i for i in idxs if solves[i][1]["nefc"] == d0["nefc"] and solves[i][1]["type"] == d0["type"] and not solves[i][0]["truncated"] and not solves[i][0]["loose"]]
@@ -469,8 +476,8 @@ def run(ctx):
                 noise = NOISE_REL * (abs(pf["gauss"]) + abs(pf["s"])) * scale
                 stats["noise_limited"] = stats.get("noise_limited", 0) + (1 if noise > BOUND_REL[SOLNAME[d["solver"]] + ("/elliptic" if elliptic else "") + ("@loose" if info["loose"] else "")] else 0)
                 thr = max(noise, BOUND_REL[SOLNAME[d["solver"]] + ("/elliptic" if elliptic else "") + ("@loose" if info["loose"] else "")])
-                if ok_numerics and bound > thr:
-                    suspects[ref] = (bound, thr, name, elliptic)
+                if ok_numerics and (bound > thr or d["solver"] == PGS):
+                    suspects[ref] = (bound, thr, name, elliptic, noise)
             else:
                 stats["not_converged"][name] = stats["not_converged"].get(name, 0) + 1
             # final cost <= cheaper start (primal solvers)
@@ -521,12 +528,19 @@ def run(ctx):
         cs = [cert_of[i][0]["cost"] for i in idxs if i in cert_of]
         if cs:
             best_cost[key] = min(cs)
-    for ref, (bound, thr, name, elliptic) in suspects.items():
+    for ref, (bound, thr, name, elliptic, noise) in suspects.items():
         info, d, rp = solves[ref]
         pf = cert_of[ref][0]
         scale = 1.0 / (d["meaninertia"] * max(1, d["nv"]))
-        gap = (pf["cost"] - best_cost.get((info["model"], info["state"]), pf["cost"])) * scale
-        stats["max_cost_gap"] = max(stats.get("max_cost_gap", 0.0), gap)
+        gap = (pf["cost"] - best_cost.get((info["model"], info["state"], d["nefc"], tuple(d["type"])), pf["cost"])) * scale
+        if d["solver"] == PGS:
+            # PGS is a dual method: its primal gradient (hence the upper bound 1/2 g'M^-1 g) can be large in stiff directions while
+            # the cost is essentially optimal; it is judged by the LOWER bound on its sub-optimality that another solve of the
+            # same problem provides (cost(PGS) - cost(other) <= cost(PGS) - min)
+            gk = "PGS/elliptic" if elliptic else "PGS"
+            stats.setdefault("max_cost_gap", {})[gk] = max(stats.setdefault("max_cost_gap", {}).get(gk, 0.0), gap)
+            if gap <= max(GAP_PGS, noise):
+                continue
         key = PGS_ELLIPTIC_KEY if (d["solver"] == PGS and elliptic) else "c10:converged-but-suboptimal:" + SOLNAME[d["solver"]]
         fail(key, "%s left its loop through its own exit test (iterations %r of %d, tolerance %g) but the certified sub-optimality bound of its "
              "qacc is %r > %g (scaled); another solver's qacc for the same problem has a cost lower by %r (scaled): the returned "
